@@ -753,6 +753,7 @@ std::string describePlan(const LoopPlan &p)
 // Waiting for the endpoint's close frame only buys a synchronisation point; when it does not
 // come the case loses the checks that need one (label), it never fails - so this wait may be short.
 constexpr double kCloseWait = 10.0;
+const std::string kInvalidText = std::string("bad \xc3\x28 text", 11);
 const std::string kSentinel = std::string("\0SENTINEL-C18-end-of-case", 25);
 
 } // namespace
@@ -1054,16 +1055,14 @@ struct ClientUnderTest
   /// create a client, let it connect to the raw listener and complete the opening handshake
   bool start(std::string &why, bool &harnessSide)
   {
+    create();
+    return connectOnce(why, harnessSide);
+  }
+
+  /// the client object and its callbacks (set once, before the first connect(): precondition M-1)
+  void create()
+  {
     quietLogs();
-    harnessSide = false;
-    timed = false;
-    c18net::RawListener &lst = rawListener();
-    if (lst.port <= 0)
-    {
-      why = "raw listener could not bind";
-      harnessSide = true;
-      return false;
-    }
     cl = ws::WebSocketClient::create();
     auto lg = log; // callbacks must not own the client (HR-11); they own the log only
     cl->setOnTextMessage([lg](const std::string &t)
@@ -1088,6 +1087,23 @@ struct ClientUnderTest
                      std::lock_guard<std::mutex> g(lg->m);
                      ++lg->o.errors;
                    });
+  }
+
+  /// one connect() of the SAME client object to the raw listener incl. opening handshake. May be
+  /// called again after the previous connection ended in whatever way; connect() itself tears the
+  /// old transport down (joining its I/O thread), so the log can be cleared right after it returns.
+  bool connectOnce(std::string &why, bool &harnessSide)
+  {
+    harnessSide = false;
+    timed = false;
+    c18net::RawListener &lst = rawListener();
+    if (lst.port <= 0)
+    {
+      why = "raw listener could not bind";
+      harnessSide = true;
+      return false;
+    }
+    conn.reset();
     bool accepted = false;
     std::string acceptWhy;
     std::thread acceptor([&] { accepted = lst.acceptAndUpgrade(conn, acceptWhy); });
@@ -1116,9 +1132,107 @@ struct ClientUnderTest
       return false;
     }
     conn.peerFd = c18net::findPeerFd(conn.fd);
+    {
+      std::lock_guard<std::mutex> g(log->m);
+      log->o = Outcome{}; // nothing of the new connection has been sent yet
+    }
     return true;
   }
+  Outcome outcome()
+  {
+    std::lock_guard<std::mutex> g(log->m);
+    return log->o;
+  }
 };
+
+LoopEndpoint clientEndpoint(ClientUnderTest &cut)
+{
+  LoopEndpoint ep;
+  ep.appSend = [&cut](const AppSend &a)
+  {
+    switch (a.kind)
+    {
+    case 't': cut.cl->sendText(a.payload); break;
+    case 'b': cut.cl->sendBinary(std::vector<std::uint8_t>(a.payload.begin(), a.payload.end())); break;
+    case 'p': cut.cl->sendPing(std::vector<std::uint8_t>(a.payload.begin(), a.payload.end())); break;
+    default: cut.cl->sendClose(1001, "going away"); break;
+    }
+  };
+  return ep;
+}
+
+/// One complete exchange on the client's current connection, ended by the close handshake and
+/// disconnect(): the stream is written segment by segment with the application sends of the plan,
+/// then deliveries and the wire capture are judged (the oracle of client_wire). false => verdict set.
+bool exchangeAndClose(pbt::Src &src, pbt::Case &c, ClientUnderTest &cut, const Stream &s, const LoopPlan &plan, const std::string &where)
+{
+  c18net::RawConn &conn = cut.conn;
+  LoopResult r = driveLoop(s, plan, conn, clientEndpoint(cut));
+  if (r.connLost && !r.closing)
+  {
+    c.fail("C18/client/connection-lost", "the client dropped the connection in the middle of a valid stream" + where);
+    return false;
+  }
+  bool synced = false, sentinelTimeout = false;
+  if (!r.closing)
+  {
+    conn.writeSegment(refws::encode(maskedFrame(src, refws::OpPing, kSentinel, false)));
+    if (conn.readUntil([&] { return sentinelOrVerdict(conn.rx, kSentinel, s.pings.size()); }, 30.0)) synced = true;
+    else sentinelTimeout = true;
+    conn.writeSegment(refws::encode(maskedFrame(src, refws::OpClose, std::string("\x03\xe8", 2), false))); // orderly end
+  }
+  // the client's own close frame (echo, 1007 or the application's) is the other synchronisation
+  // point: frames are sent in order, so everything before it has arrived when it has
+  if (conn.readUntil([&] { return wireHasClose(conn.rx); }, kCloseWait)) synced = true;
+  else c.label("no close frame from the client");
+  const bool allRead = conn.allBarriersExact(); // every inbound byte was read by the client
+  cut.cl->disconnect();                         // joins the client's I/O thread: every callback has returned
+  conn.readUntil([&] { return conn.eof; }, 30.0);
+
+  Outcome o = cut.outcome();
+  std::string seg = describePlan(plan) + where;
+  // behind an exact read barrier + the join, every inbound byte was processed: what is missing
+  // now is missing for good (a data verdict, judged before the bounded wait below)
+  if ((allRead || synced) && !judgeLoopDeliveries(c, "client", s, r, o, seg)) return false;
+  if (sentinelTimeout)
+  {
+    c.failTimed("C18/client/ping-unanswered", "a ping behind a valid stream was not answered within 30 s on an open connection" + where);
+    return false;
+  }
+  std::vector<std::string> required, optional;
+  splitPings(s, synced, r.appClosed, required, optional);
+  if (!judgeWire(c, "client", conn.rx, conn.eof, required, optional, r.sends, kSentinel, true)) return false;
+  if (!required.empty()) c.label("pings answered with matching pongs");
+  labelPlan(c, s, plan, r);
+  return true;
+}
+
+/// known finding C18/client/data-after-close: no application data send behind sendClose in the plan
+void excludeDataAfterClose(pbt::Case &c, LoopPlan &plan)
+{
+  if (!pbt::isKnown("C18/client/data-after-close")) return;
+  bool closed = false;
+  std::vector<LoopPlan::Op> kept;
+  for (auto &op : plan.ops)
+  {
+    if (op.kind == 'c') closed = true;
+    else if (closed && (op.kind == 't' || op.kind == 'b'))
+    {
+      c.label("excluded by known finding: data send after sendClose");
+      continue;
+    }
+    kept.push_back(op);
+  }
+  plan.ops = kept;
+}
+
+bool reportStartFailure(pbt::Case &c, ClientUnderTest &cut, const std::string &why, bool harnessSide, bool fixedCase = false)
+{
+  if (harnessSide || (fixedCase && cut.timed)) c.inconclusive(why);
+  else if (cut.timed) c.failTimed("C18/client/handshake-timeout", why);
+  else c.fail("C18/client/handshake", why);
+  return false;
+}
 } // namespace
 
 PBT_PROPERTY(client_wire)
@@ -1129,25 +1243,8 @@ PBT_PROPERTY(client_wire)
   go.allowBig = src.coin(1, 10);
   go.allowInvalidUtf8 = !pbt::isKnown("C18/client/invalid-utf8-delivered");
   Stream s = c18::genStream(src, go);
-  const bool allowDataAfterClose = !pbt::isKnown("C18/client/data-after-close");
   LoopPlan plan = drawPlan(src, s, true);
-  if (!allowDataAfterClose)
-  {
-    // known finding: exclude the shape by construction - no application data send behind sendClose
-    bool closed = false;
-    std::vector<LoopPlan::Op> kept;
-    for (auto &op : plan.ops)
-    {
-      if (op.kind == 'c') closed = true;
-      else if (closed && (op.kind == 't' || op.kind == 'b'))
-      {
-        c.label("excluded by known finding: data send after sendClose");
-        continue;
-      }
-      kept.push_back(op);
-    }
-    plan.ops = kept;
-  }
+  excludeDataAfterClose(c, plan);
   c.describe("client <- " + s.describe() + " | " + describePlan(plan));
   labelStream(c, s);
 
@@ -1156,65 +1253,178 @@ PBT_PROPERTY(client_wire)
   bool harnessSide = false;
   if (!cut.start(why, harnessSide))
   {
-    if (harnessSide) c.inconclusive(why);
-    else if (cut.timed) c.failTimed("C18/client/handshake-timeout", why);
-    else c.fail("C18/client/handshake", why);
+    reportStartFailure(c, cut, why, harnessSide);
     return;
   }
-  c18net::RawConn &conn = cut.conn;
-  if (conn.peerFd >= 0) c.label("read barrier exact (endpoint descriptor found)");
-
-  LoopEndpoint ep;
-  ep.appSend = [&](const AppSend &a)
-  {
-    switch (a.kind)
-    {
-    case 't': cut.cl->sendText(a.payload); break;
-    case 'b': cut.cl->sendBinary(std::vector<std::uint8_t>(a.payload.begin(), a.payload.end())); break;
-    case 'p': cut.cl->sendPing(std::vector<std::uint8_t>(a.payload.begin(), a.payload.end())); break;
-    default: cut.cl->sendClose(1001, "going away"); break;
-    }
-  };
-  LoopResult r = driveLoop(s, plan, conn, ep);
-  if (r.connLost && !r.closing)
-  {
-    c.fail("C18/client/connection-lost", "the client dropped the connection in the middle of a valid stream");
-    return;
-  }
-  bool synced = false;
-  if (!r.closing)
-  {
-    conn.writeSegment(refws::encode(maskedFrame(src, refws::OpPing, kSentinel, false)));
-    if (!conn.readUntil([&] { return sentinelOrVerdict(conn.rx, kSentinel, s.pings.size()); }, 30.0))
-    {
-      c.failTimed("C18/client/ping-unanswered", "a ping behind a valid stream was not answered within 30 s on an open connection");
-      return;
-    }
-    synced = true;
-    conn.writeSegment(refws::encode(maskedFrame(src, refws::OpClose, std::string("\x03\xe8", 2), false))); // orderly end
-  }
-  // the client's own close frame (echo, 1007 or the application's) is the other synchronisation
-  // point: frames are sent in order, so everything before it has arrived when it has
-  if (conn.readUntil([&] { return wireHasClose(conn.rx); }, kCloseWait)) synced = true;
-  else c.label("no close frame from the client");
-  cut.cl->disconnect(); // joins the client's I/O thread: every callback has returned afterwards
-  conn.readUntil([&] { return conn.eof; }, 30.0);
-
-  Outcome o;
-  {
-    std::lock_guard<std::mutex> g(cut.log->m);
-    o = cut.log->o;
-  }
-  std::string seg = describePlan(plan);
-  // disconnect() joined the I/O thread behind an exact read barrier: every inbound byte was processed
-  if (!judgeLoopDeliveries(c, "client", s, r, o, seg)) return;
-  std::vector<std::string> required, optional;
-  splitPings(s, synced, r.appClosed, required, optional);
-  if (!judgeWire(c, "client", conn.rx, conn.eof, required, optional, r.sends, kSentinel, true)) return;
-  if (!required.empty()) c.label("pings answered with matching pongs");
-  labelPlan(c, s, plan, r);
+  if (cut.conn.peerFd >= 0) c.label("read barrier exact (endpoint descriptor found)");
+  exchangeAndClose(src, c, cut, s, plan, "");
 }
 
+// ---------------------------------------------------------------------------- client_reuse
+// ONE WebSocketClient object goes through 2-3 connections. Every connection but the last carries
+// a short valid exchange (judged at a sentinel pong) and then ends in one of the ways a
+// connection can end; the next connect() of the same object must give a fully working endpoint
+// again: the usual stream under the usual oracles (deliveries for the segmentation, pongs, close
+// echo, no data behind the close). State that has to be re-armed per connection: receive
+// buffer, fragment buffer, upgrade flag, close-echo gate, close-sent flag, receive-failed flag.
+namespace
+{
+enum class Ending
+{
+  OversizedHeader, // header declaring 2^62 bytes -> the client fails the connection (1009)
+  MalformedHeader, // ping with length code 126 -> 1002
+  InvalidUtf8,     // text message that is not UTF-8 -> 1007
+  ClientClose,     // application sendClose, peer echoes
+  ClientDisconnect,// application disconnect()
+  PeerClose,       // peer's close frame, client echoes
+  TcpDropIdle,     // peer resets the TCP connection, nothing pending
+  TcpDropMidFrame, // ... in the middle of a frame header/payload and of a fragmented message
+  kCount
+};
+const char *endingName(Ending e)
+{
+  static const char *n[] = {"oversized header (1009)", "malformed header (1002)", "invalid UTF-8 text (1007)", "close by client (sendClose)",
+                            "client disconnect()", "close by peer", "TCP reset while idle", "TCP reset in the middle of a frame"};
+  return n[static_cast<int>(e)];
+}
+
+/// short exchange on an intermediate connection, left OPEN: judged at the sentinel pong
+bool exchangeKeepOpen(pbt::Src &src, pbt::Case &c, ClientUnderTest &cut, const Stream &s, const LoopPlan &plan, const std::string &where)
+{
+  c18net::RawConn &conn = cut.conn;
+  LoopResult r = driveLoop(s, plan, conn, clientEndpoint(cut));
+  if (r.connLost)
+  {
+    c.fail("C18/client/connection-lost", "the client dropped the connection in the middle of a valid stream" + where);
+    return false;
+  }
+  conn.writeSegment(refws::encode(maskedFrame(src, refws::OpPing, kSentinel, false)));
+  bool synced = conn.readUntil([&] { return sentinelOrVerdict(conn.rx, kSentinel, s.pings.size()); }, 30.0);
+  if (!synced)
+  {
+    // no verdict possible from the wire; let the join decide about the deliveries, then report
+    const bool allRead = conn.allBarriersExact();
+    cut.cl->disconnect();
+    if (allRead && !judge(c, "client", s, cut.outcome(), describePlan(plan) + where)) return false;
+    c.failTimed("C18/client/ping-unanswered", "a ping behind a valid stream was not answered within 30 s on an open connection" + where);
+    return false;
+  }
+  if (!judge(c, "client", s, cut.outcome(), describePlan(plan) + where)) return false;
+  std::vector<std::string> required, optional;
+  splitPings(s, true, false, required, optional);
+  return judgeWire(c, "client", conn.rx, false, required, optional, r.sends, kSentinel, true);
+}
+
+/// make the current connection end in the chosen way (from the raw peer's / the application's side)
+void applyEnding(pbt::Src &src, ClientUnderTest &cut, Ending e)
+{
+  c18net::RawConn &conn = cut.conn;
+  std::uint8_t nokey[4] = {0, 0, 0, 0};
+  auto waitClose = [&] { conn.readUntil([&] { return wireHasClose(conn.rx); }, kCloseWait); };
+  switch (e)
+  {
+  case Ending::OversizedHeader:
+    conn.writeSegment(refws::rawHeader(true, 0, refws::OpBinary, false, nokey, 127, (1ULL << 62) + static_cast<std::uint64_t>(src.range(0, 1000))) + "abc");
+    waitClose();
+    break;
+  case Ending::MalformedHeader:
+    conn.writeSegment(refws::rawHeader(true, 0, refws::OpPing, false, nokey, 126, 126) + std::string(src.coin() ? 126 : 5, 'p'));
+    waitClose();
+    break;
+  case Ending::InvalidUtf8:
+    conn.writeSegment(refws::encode(maskedFrame(src, refws::OpText, kInvalidText, false)));
+    waitClose();
+    break;
+  case Ending::ClientClose:
+    cut.cl->sendClose(1000, "done");
+    waitClose();
+    conn.writeSegment(refws::encode(maskedFrame(src, refws::OpClose, std::string("\x03\xe8", 2), false)));
+    break;
+  case Ending::ClientDisconnect:
+    cut.cl->disconnect();
+    break;
+  case Ending::PeerClose:
+    conn.writeSegment(refws::encode(maskedFrame(src, refws::OpClose, std::string("\x03\xe9", 2) + "bye", false)));
+    waitClose();
+    break;
+  case Ending::TcpDropIdle: break;
+  case Ending::TcpDropMidFrame:
+  {
+    // an unfinished fragmented message AND an unfinished frame stay behind in the client
+    refws::Frame f1 = maskedFrame(src, refws::OpText, "left", false);
+    f1.fin = false;
+    refws::Frame f2 = maskedFrame(src, refws::OpCont, std::string(200, 'o'), false);
+    f2.fin = false;
+    std::string bytes = refws::encode(f1) + refws::encode(f2);
+    bytes.resize(bytes.size() - static_cast<std::size_t>(src.range(1, 199)));
+    std::string pingHead = refws::encode(maskedFrame(src, refws::OpPing, "x", false)).substr(0, 1);
+    conn.writeSegment(bytes + (src.coin() ? pingHead : std::string()));
+    break;
+  }
+  default: break;
+  }
+  // the raw peer's side of the connection goes away: orderly or by reset
+  if (e == Ending::TcpDropIdle || e == Ending::TcpDropMidFrame || src.coin(1, 3)) conn.resetNow();
+  else conn.closeNow();
+}
+} // namespace
+
+PBT_PROPERTY(client_reuse)
+{
+  pbt::watchdog(180, "C18/client/loopback-stalled");
+  const int connections = static_cast<int>(src.range(2, 3));
+  std::vector<Ending> endings;
+  std::string plot;
+  for (int k = 0; k + 1 < connections; ++k)
+  {
+    Ending e = static_cast<Ending>(src.range(0, static_cast<int>(Ending::kCount) - 1));
+    if (e == Ending::InvalidUtf8 && pbt::isKnown("C18/client/invalid-utf8-delivered")) e = Ending::PeerClose;
+    if ((e == Ending::OversizedHeader && pbt::isKnown("C18/client/oversized-frame-buffered")) ||
+        (e == Ending::MalformedHeader && pbt::isKnown("C18/client/invalid-control-frame-stalls")))
+      e = Ending::TcpDropMidFrame;
+    endings.push_back(e);
+    plot += std::string(k ? ", " : "") + endingName(e);
+  }
+  ClientUnderTest cut;
+  cut.create();
+  std::string why;
+  bool harnessSide = false;
+  for (int k = 0; k < connections; ++k)
+  {
+    const bool last = k + 1 == connections;
+    const std::string where = " [connection " + std::to_string(k + 1) + " of the same client object; earlier ones ended by: " + (k ? plot : std::string("-")) + "]";
+    // sometimes the application tidies up itself before it connects again
+    if (k > 0 && src.coin(1, 3)) cut.cl->disconnect();
+    if (!cut.connectOnce(why, harnessSide))
+    {
+      reportStartFailure(c, cut, why + where, harnessSide);
+      return;
+    }
+    c18::GenOpts go;
+    go.masked = false;
+    go.allowBig = false;
+    go.maxMsgs = 3;
+    if (last) go.allowInvalidUtf8 = !pbt::isKnown("C18/client/invalid-utf8-delivered");
+    else go.allowInvalidUtf8 = go.allowClose = false;
+    Stream s = c18::genStream(src, go);
+    LoopPlan plan = drawPlan(src, s, last);
+    excludeDataAfterClose(c, plan);
+    if (last)
+    {
+      c.describe(pbt::Fmt() << "one client object, " << connections << " connections; earlier ones ended by: " << plot << "; last: client <- " << s.describe() << " | "
+                            << describePlan(plan));
+      labelStream(c, s);
+      c.nontrivial(pbt::hash64(plot + s.wire + describePlan(plan)));
+      exchangeAndClose(src, c, cut, s, plan, where);
+      return;
+    }
+    c.describe(pbt::Fmt() << "one client object, connection " << k + 1 << " of " << connections << " (endings: " << plot << "): client <- " << s.describe() << " | "
+                          << describePlan(plan));
+    if (!exchangeKeepOpen(src, c, cut, s, plan, where)) return;
+    c.label(std::string("previous connection ended by: ") + endingName(endings[static_cast<std::size_t>(k)]));
+    applyEnding(src, cut, endings[static_cast<std::size_t>(k)]);
+  }
+}
 
 // =======================================================================================
 // close races: application threads hammer sendText/sendBinary while the close handshake is
@@ -1330,7 +1540,6 @@ bool judgeRaceWire(pbt::Case &c, const std::string &side, const std::string &wir
   return true;
 }
 
-const std::string kInvalidText = std::string("bad \xc3\x28 text", 11);
 
 } // namespace
 
@@ -1388,9 +1597,7 @@ PBT_PROPERTY(client_close_race)
   bool harnessSide = false;
   if (!cut.start(why, harnessSide))
   {
-    if (harnessSide) c.inconclusive(why);
-    else if (cut.timed) c.failTimed("C18/client/handshake-timeout", why);
-    else c.fail("C18/client/handshake", why);
+    reportStartFailure(c, cut, why, harnessSide);
     return;
   }
   c18net::RawConn &conn = cut.conn;
@@ -2222,8 +2429,7 @@ PBT_REGRESSION(client_data_after_close)
   bool harnessSide = false;
   if (!cut.start(why, harnessSide))
   {
-    if (harnessSide || cut.timed) c.inconclusive(why); // fixed case: only its own oracle counts
-    else c.fail("C18/client/handshake", why);
+    reportStartFailure(c, cut, why, harnessSide, true); // fixed case: only its own oracle counts
     return;
   }
   c.describe("client: sendText(\"before\"); sendClose(1000); sendText(\"after\"); sendBinary({1,2,3})");
@@ -2315,8 +2521,7 @@ PBT_REGRESSION(client_pong_echoes_payload)
   bool harnessSide = false;
   if (!cut.start(why, harnessSide))
   {
-    if (harnessSide || cut.timed) c.inconclusive(why); // fixed case: only its own oracle counts
-    else c.fail("C18/client/handshake", why);
+    reportStartFailure(c, cut, why, harnessSide, true); // fixed case: only its own oracle counts
     return;
   }
   c18net::RawConn &conn = cut.conn;
@@ -2346,6 +2551,85 @@ PBT_REGRESSION(client_pong_echoes_payload)
   cut.cl->disconnect();
   conn.readUntil([&] { return conn.eof; }, 30.0);
   judgeWire(c, "client", conn.rx, conn.eof, pings, {}, {}, kSentinel, true);
+}
+
+namespace
+{
+/// a Src for fixed cases: always the lower bound (unmasked frames draw no key, plans are given)
+struct FixedSrc : pbt::Src
+{
+  std::int64_t range(std::int64_t lo, std::int64_t) override { return lo; }
+  std::int64_t sized(std::int64_t lo, std::int64_t) override { return lo; }
+  std::vector<pbt::Row> rows(std::size_t, std::size_t, std::int64_t, std::int64_t) override { return {}; }
+  std::string blob(std::size_t) override { return {}; }
+};
+
+Stream fixedClientStream(const std::string &tag, bool withClose)
+{
+  Stream s;
+  auto add = [&](std::uint8_t op, bool fin, const std::string &pl)
+  {
+    refws::Frame f;
+    f.opcode = op;
+    f.fin = fin;
+    f.payload = pl;
+    s.add(f);
+  };
+  add(refws::OpText, false, tag + "-he");
+  add(refws::OpPing, true, tag + "-ping");
+  s.pings.push_back(tag + "-ping");
+  s.pingEnds.push_back(s.wire.size());
+  add(refws::OpCont, true, "llo");
+  add(refws::OpBinary, true, std::string("\x00\x01\xfe", 3));
+  s.expect = {Msg{true, tag + "-hello"}, Msg{false, std::string("\x00\x01\xfe", 3)}};
+  s.fragmentedMsgs = 1;
+  s.controlInsideMsg = 1;
+  if (withClose)
+  {
+    add(refws::OpClose, true, std::string("\x03\xe8", 2) + "fin");
+    s.hasClose = true;
+    s.closeCode = 1000;
+    s.closeReason = "fin";
+    s.triggerEnd = s.wire.size();
+  }
+  return s;
+}
+} // namespace
+
+// One client object: connection 1 is failed from the receive path (1009 by an oversized header,
+// then - third connection - 1002 by a malformed one); the next connect() of the SAME object must
+// give a working endpoint: messages delivered, ping answered, close echoed.
+PBT_REGRESSION(client_reuse_after_failed_receive)
+{
+  pbt::watchdog(180, "C18/client/loopback-stalled");
+  FixedSrc src;
+  ClientUnderTest cut;
+  cut.create();
+  std::string why;
+  bool harnessSide = false;
+  const Ending endings[] = {Ending::OversizedHeader, Ending::MalformedHeader};
+  for (int k = 0; k < 3; ++k)
+  {
+    const std::string where = " [connection " + std::to_string(k + 1) + " of the same client object" +
+                              (k ? std::string("; the previous one was failed by the client: ") + endingName(endings[k - 1]) : std::string()) + "]";
+    if (!cut.connectOnce(why, harnessSide))
+    {
+      reportStartFailure(c, cut, why + where, harnessSide, true);
+      return;
+    }
+    LoopPlan plan;
+    plan.cuts = {1, 9}; // inside the first header, inside the ping
+    const bool last = k == 2;
+    Stream s = fixedClientStream("c" + std::to_string(k + 1), last);
+    c.describe("client <- " + s.describe() + where);
+    if (last)
+    {
+      exchangeAndClose(src, c, cut, s, plan, where);
+      return;
+    }
+    if (!exchangeKeepOpen(src, c, cut, s, plan, where)) return;
+    applyEnding(src, cut, endings[k]);
+  }
 }
 
 PBT_REGRESSION(server_ping_length_code_126)
